@@ -100,6 +100,16 @@ func newGraph(rep string, n int, ranks []int) graph.EditableGraph {
 	return graph.NewSparse(n, nb)
 }
 
+// relabelled: the graph gj in representation rep with new vertex i = old pi[i]. InducedSubgraph writes 0/1 edge bytes, so a dense result
+// is rebuilt through newGraph to carry the mixed non-zero bytes again (every function must treat any non-zero byte as an edge).
+func relabelled(rep string, gj gJ, pi []int) graph.EditableGraph {
+	h := graphOfJ(rep, gj).InducedSubgraph(pi)
+	if rep == "dense" {
+		return newGraph("dense", h.N(), ranksOf(h))
+	}
+	return h
+}
+
 // applyE executes one action on the handle table; returns "ok" or the panic.
 func applyE(rep string, hs map[int]graph.EditableGraph, a EAct) string {
 	return obs.Safe(func() {
